@@ -544,12 +544,60 @@ Proof.
   apply str_eqb_eq in Hm. apply idx_inj in Hm. unfold isA. cbn [fst]. rewrite Hm, HkA. apply N.eqb_refl.
 Qed.
 
-Definition covered (r : req) : bool := match r with RBulkLoad _ => false | _ => true end.
+(* BulkLoadHnsw by tenant A: the validated batch does not depend on the state and carries only A's ids *)
+Lemma dexists_view_eq : forall d1 d2 g, viewD d1 = viewD d2 -> tenant_of g = A -> dexists d1 g = dexists d2 g.
+Proof. intros d1 d2 g H Hg. unfold dexists. rewrite <- (dget_view d1 g Hg), <- (dget_view d2 g Hg), H. reflexivity. Qed.
+Lemma bl_insert_same : forall batch d1 d2 acc,
+  Forall (fun p => tenant_of (fst p) = A) batch -> viewD d1 = viewD d2 ->
+  viewD (fst (fold_left (bl_insert cfg) batch (d1, acc))) = viewD (fst (fold_left (bl_insert cfg) batch (d2, acc)))
+  /\ snd (fold_left (bl_insert cfg) batch (d1, acc)) = snd (fold_left (bl_insert cfg) batch (d2, acc)).
+Proof.
+  induction batch as [|[g d] r IH]; intros d1 d2 [a b] HF V; cbn [fold_left]; [split; [exact V|reflexivity]|].
+  inversion HF; subst. cbn [fst] in *.
+  assert (Hstep : exists e1 e2 acc1, bl_insert cfg (d1, (a, b)) (g, d) = (e1, acc1) /\ bl_insert cfg (d2, (a, b)) (g, d) = (e2, acc1) /\ viewD e1 = viewD e2).
+  { unfold bl_insert. cbn [fst snd]. destruct (engine_insert_ok cfg (d_vec d)); eexists; eexists; eexists; (split; [reflexivity|]); (split; [reflexivity|]);
+      [rewrite !view_dset_in by assumption; rewrite V; reflexivity | exact V]. }
+  destruct Hstep as [e1 [e2 [acc1 [E1 [E2 V']]]]]. rewrite E1, E2. apply IH; assumption.
+Qed.
+Lemma same_bulk_load : forall s1 s2 its, equivA s1 s2 ->
+  snd (h_bulk_load idx_str cfg ki s1 its) = snd (h_bulk_load idx_str cfg ki s2 its)
+  /\ equivA (fst (h_bulk_load idx_str cfg ki s1 its)) (fst (h_bulk_load idx_str cfg ki s2 its)).
+Proof.
+  intros s1 s2 its E. unfold h_bulk_load.
+  destruct (fold_left (bl_validate idx_str ki) its ([], 0)) as [batch bad] eqn:Ev.
+  pose proof (bl_validate_inv ki _ _ _ _ _ Ev (Forall_nil _)) as HF0.
+  assert (HF : Forall (fun p => tenant_of (fst p) = A) batch).
+  { eapply Forall_impl; [|exact HF0]. intros p [Hp _]. rewrite Hp. exact HkA. }
+  destruct batch as [|p0 batch']; [split; [reflexivity|exact E]|]. set (batch := p0 :: batch') in *.
+  assert (HgA : forall g, In g (map fst batch) -> tenant_of g = A).
+  { intros g Hg. apply in_map_iff in Hg. destruct Hg as [p [<- Hp]]. rewrite Forall_forall in HF. apply HF. exact Hp. }
+  assert (Hnew : nodup_N (List.filter (fun g => negb (dexists (st_docs s1) g)) (map fst batch))
+               = nodup_N (List.filter (fun g => negb (dexists (st_docs s2) g)) (map fst batch))).
+  { f_equal. apply filter_ext_in. intros g Hg. rewrite (dexists_equiv s1 s2 g E (HgA g Hg)). reflexivity. }
+  rewrite Hnew. set (new_ids := nodup_N (List.filter (fun g => negb (dexists (st_docs s2) g)) (map fst batch))).
+  assert (HnA : forall g, In g new_ids -> tenant_of g = A).
+  { intros g Hg. apply in_nodup_N in Hg. apply filter_In in Hg. apply HgA. apply Hg. }
+  rewrite HkA, (get_count_equiv s1 s2 E).
+  destruct (negb (len new_ids =? 0) && (k_maxvec ki <? get_count s2 A + len new_ids)); [split; [reflexivity|exact E]|].
+  set (t1 := if len new_ids =? 0 then s1 else set_count s1 A (get_count s2 A + len new_ids)).
+  set (t2 := if len new_ids =? 0 then s2 else set_count s2 A (get_count s2 A + len new_ids)).
+  assert (Et : equivA t1 t2) by (unfold t1, t2; destruct (len new_ids =? 0); [exact E | apply eq_set_count; exact E]).
+  destruct (bl_insert_same batch (st_docs t1) (st_docs t2) (0, 0) HF (proj1 Et)) as [V Hs].
+  destruct (fold_left (bl_insert cfg) batch (st_docs t1, (0, 0))) as [e1 [l1 f1]].
+  destruct (fold_left (bl_insert cfg) batch (st_docs t2, (0, 0))) as [e2 [l2 f2]].
+  cbn [fst snd] in *. inversion Hs; subst l2 f2.
+  assert (Hins : List.filter (dexists e1) new_ids = List.filter (dexists e2) new_ids).
+  { apply filter_ext_in. intros g Hg. apply dexists_view_eq; [exact V | apply HnA; exact Hg]. }
+  rewrite Hins.
+  assert (E2 : equivA (set_docs t1 e1) (set_docs t2 e2)).
+  { destruct Et as [_ [Ec Eu]]. unfold equivA. cbn [st_docs st_counts st_usage set_docs]. repeat split; assumption. }
+  split; [reflexivity|]. destruct (len new_ids =? 0); [exact E2|]. eqv.
+Qed.
 
-Lemma handle_same : forall s1 s2 r, covered r = true -> equivA s1 s2 -> wf s1 -> wf s2 ->
+Lemma handle_same : forall s1 s2 r, equivA s1 s2 -> wf s1 -> wf s2 ->
   proj (snd (handle ki s1 r)) = proj (snd (handle ki s2 r)) /\ equivA (fst (handle ki s1 r)) (fst (handle ki s2 r)).
 Proof.
-  intros s1 s2 r Hcov E W1 W2. destruct r; cbn [Server.handle]; try discriminate Hcov.
+  intros s1 s2 r E W1 W2. destruct r; cbn [Server.handle].
   - (* Insert *) unfold h_insert.
     destruct (i_id it <? 1); [split; [reflexivity|exact E]|]. destruct (i_vec it) eqn:Ev; [split; [reflexivity|exact E]|]. rewrite <- Ev.
     rewrite HkA. destruct (to_global_doc_id A (i_id it)) as [g|] eqn:Eg; [|split; [reflexivity|exact E]].
@@ -560,6 +608,7 @@ Proof.
     destruct (same_fold_bulk_insert its (s1, (0, 0)) (s2, (0, 0)) E eq_refl) as [E' Hs'].
     destruct (fold_left _ its (s1, _)) as [t1 [a1 b1]]. destruct (fold_left _ its (s2, _)) as [t2 [a2 b2]].
     cbn [fst snd] in *. inversion Hs'; subst. split; [reflexivity|exact E'].
+  - (* BulkLoadHnsw *) destruct (same_bulk_load s1 s2 its E) as [Ho Es]. rewrite Ho. split; [reflexivity|exact Es].
   - (* Query *) unfold h_query. destruct (id =? 0); [split; [reflexivity|exact E]|].
     rewrite HkA. destruct (to_global_doc_id A id) as [g|] eqn:Eg; [|split; [reflexivity|exact E]].
     pose proof (tenant_of_to_global _ _ _ Eg) as Hg. rewrite (dget_equiv s1 s2 g E Hg).
@@ -646,11 +695,9 @@ Lemma obsA_cons : forall s c r, obsA s (c :: r) = (if callerA c then [proj (snd 
 Proof. reflexivity. Qed.
 
 Theorem unwinding : forall B cs s1 s2, A <> B -> equivA s1 s2 -> wf s1 -> wf s2 ->
-  (forall c, In c cs -> callerA c = true -> covered (c_req c) = true) ->
   obsA s1 cs = obsA s2 (remove_tenant B cs).
 Proof.
-  intros B cs. induction cs as [|c r IH]; intros s1 s2 HAB E W1 W2 Hcov; [reflexivity|].
-  assert (Hcov' : forall c0, In c0 r -> callerA c0 = true -> covered (c_req c0) = true) by (intros; apply Hcov; [right|]; assumption).
+  intros B cs. induction cs as [|c r IH]; intros s1 s2 HAB E W1 W2; [reflexivity|].
   rewrite remove_cons.
   destruct (auth cfg (c_key c)) as [ki|] eqn:Ea.
   - assert (Hst : forall s, step s c = handle ki s (c_req c)) by (intro; unfold Server.step; rewrite Ea; reflexivity).
@@ -660,7 +707,7 @@ Proof.
       assert (HcA : callerA c = true) by (unfold callerA, caller; rewrite Ea, HkA; apply N.eqb_refl).
       rewrite Hk, !obsA_cons, HcA, !Hst.
       destruct (auth_some _ _ _ Ea) as [k [_ [Hkk _]]].
-      destruct (handle_same ki HkA (A_not_admin k ki Hkk HkA) s1 s2 (c_req c) (Hcov c (or_introl eq_refl) HcA) E W1 W2) as [Ho Es].
+      destruct (handle_same ki HkA (A_not_admin k ki Hkk HkA) s1 s2 (c_req c) E W1 W2) as [Ho Es].
       rewrite Ho. cbn [app]. f_equal. apply IH; try assumption; apply wf_handle; assumption.
     + assert (HcA : callerA c = false) by (unfold callerA, caller; rewrite Ea; apply N.eqb_neq; exact HkA).
       destruct (N.eq_dec (k_tenant ki) B) as [HkB|HkB].
@@ -681,11 +728,10 @@ Proof.
     rewrite Hk, !obsA_cons, HcA, !Hst. cbn [app]. apply IH; assumption.
 Qed.
 
-Theorem noninterference_partial : forall B cs, A <> B ->
-  (forall c, In c cs -> callerA c = true -> covered (c_req c) = true) ->
+Theorem noninterference : forall B cs, A <> B ->
   sel cs (run idx_str score cfg cs) = sel (remove_tenant B cs) (run idx_str score cfg (remove_tenant B cs)).
 Proof.
-  intros B cs HAB Hcov. unfold run. rewrite <- !obsA_sel.
+  intros B cs HAB. unfold run. rewrite <- !obsA_sel.
   apply unwinding; try assumption; try apply equivA_refl; apply wf_init.
 Qed.
 
